@@ -24,10 +24,14 @@ ASSUMPTIONS = ["pids are not reused within a session", "the line editor, real si
 # sessions that run first: the witnesses of the known findings and the scenarios of the design phase
 CORPUS = [
     "L:f:S,S;Z;J;B:1;J;F:1;C;J;L:b:S;L:f:N;L:f:X3;E;K:5;E;C;Z;J",
-    "L:b:S;K:1;C;E;L:f:S,S;T:2;K:2;J;F:1;C",          # KF-C07-wait-counts-member-twice
-    "L:f:S,S;T:1;K:2;J;F:1;C;J",                      # KF-C07-status-not-reevaluated
-    "L:b:S;L:f:S;T:1;U:1;C;J;J",                      # KF-C07-parked-sets
-    "L:f:S,S;T:1;U:1;T:2;J;F;C",                      # KF-C07-fg-continue-dropped
+    "L:f:S,S;T:1;K:1",                                # witness of KF-C07-wait-counts-member-twice
+    "L:f:S,S;T:1;K:2;J",                              # witness of KF-C07-status-not-reevaluated
+    "L:b:S;L:f:S;T:1;U:1;C;T:1;J;J",                  # witness of KF-C07-parked-pair
+    "L:f:S,S;T:1;U:1;T:2",                            # witness of KF-C07-fg-continue-dropped
+    "L:b:S;K:1;C;E;L:f:S,S;T:2;K:2;J;F:1;C",
+    "L:f:S,S;T:1;K:2;J;F:1;C;J",
+    "L:b:S;L:f:S;T:1;U:1;C;J;J",
+    "L:f:S,S;T:1;U:1;T:2;J;F;C",
     "L:f:S,S,S;Z;B;J;F:1;Z;F;C;E",
     "L:f:X0,S,X1;Z;J;F;C;L:f:S,N;C;L:f:X1;L:f:N;J",
     "L:b:S,S;L:b:S;L:f:S;Z;J;K:1;K:2;E;J;F:2;C;F:3;C;J",
@@ -153,7 +157,7 @@ def process(tier, rng, cicada):
             NOTES.append("harness error, session dropped (%s): %s" % (res["error"], c.fields[0]))
             STATS["harness_errors"] = STATS.get("harness_errors", 0) + 1
             continue
-        for l in res.get("log", []):
+        for l in res.get("log", []) + res.get("slow", []):
             NOTES.append("%s: %s" % (c.fields[0], l))
         impl[c.id] = "|".join(res["obs"])
         kept.append(c)
